@@ -433,6 +433,42 @@ func (g *coreGen) stmts(ind, depth, n int, vars []gvar, rets []string) []gvar {
 			g.printVars(ind, local)
 		case depth <= 0:
 			g.printVars(ind, local)
+		case x < 37: // tiny bodies: exactly one short statement that the optimizer fuses as a whole (a bare call of a
+			// zero-argument function, a field read, x++) inside a construct whose jump distance is that body's length
+			g.kinds["tiny body"]++
+			body := pick(g.r, []string{"tick()", "tick()", "TK++", "TK += 2"})
+			if pv := varsOf(local, "*P"); len(pv) > 0 && g.r.chance(30) {
+				body = pick(g.r, pv) + ".x++"
+			}
+			switch g.r.intn(5) {
+			case 0:
+				g.line(ind, "if %s {", g.boolExpr(local, 1))
+				g.line(ind+1, "%s", body)
+				g.line(ind, "}")
+			case 1:
+				g.line(ind, "if %s {", g.boolExpr(local, 1))
+				g.line(ind+1, "%s", body)
+				g.line(ind, "} else {")
+				g.line(ind+1, "tick()")
+				g.line(ind, "}")
+			case 2:
+				iv := g.fresh("i")
+				g.line(ind, "for %s := 0; %s < %d; %s++ {", iv, iv, g.r.intn(4), iv)
+				g.line(ind+1, "%s", body)
+				g.line(ind, "}")
+			case 3:
+				g.line(ind, "switch {")
+				g.line(ind, "case %s:", g.boolExpr(local, 1))
+				g.line(ind+1, "%s", body)
+				g.line(ind, "case %s:", g.boolExpr(local, 0))
+				g.line(ind+1, "tick()")
+				g.line(ind, "}")
+			default:
+				g.line(ind, "for range []int{1, 2} {")
+				g.line(ind+1, "%s", body)
+				g.line(ind, "}")
+			}
+			g.line(ind, "fmt.Println(\"tk\", TK)")
 		case x < 50: // if / else if / else
 			g.kinds["if"]++
 			g.line(ind, "if %s {", g.boolExpr(local, 2))
@@ -583,7 +619,7 @@ func genCoreProgram(r *rng, nf int) string {
 	sb.WriteString("func vsum(base int, xs ...int) int {\n\tfor _, x := range xs {\n\t\tbase += x\n\t}\n\treturn base\n}\n\n")
 	sb.WriteString("func fact(n int) int {\n\tif n <= 1 {\n\t\treturn 1\n\t}\n\treturn n * fact(n-1)\n}\n\n")
 	sb.WriteString("func divmod(a int, b int) (int, int) {\n\treturn a / (b*b + 1), a %% (b*b + 1)\n}\n\n")
-	sb.WriteString("var G int = 7\n\nvar FZ float64 = 0.0\n\n")
+	sb.WriteString("var G int = 7\n\nvar FZ float64 = 0.0\n\nvar TK int\n\nfunc tick() {\n\tTK++\n}\n\n")
 	g.funcs = []fsig{{"vsum", []string{"int", "...int"}, []string{"int"}}, {"fact", []string{"int"}, []string{"int"}}, {"divmod", []string{"int", "int"}, []string{"int", "int"}}}
 	// fix the literal %% written through WriteString
 	s := strings.ReplaceAll(sb.String(), "%%", "%")
